@@ -126,3 +126,13 @@
         e.inner.pos = n;
         e
     }
+
+    // ---- bit-channel stubs for the encoder side (see kani/lib.rs)
+    pub(crate) fn enc_bit_stub<W: Write>(_s: &mut RangeEncoder<W>, probs: &mut [u16], index: usize, bit: u32) -> crate::Result<()> {
+        crate::vk::ch_put(probs[index] as u32, (bit != 0) as u32);   // encode_bit treats every non-zero `bit` as 1
+        Ok(())
+    }
+    pub(crate) fn enc_direct_stub<W: Write>(_s: &mut RangeEncoder<W>, value: u32, count: u32) -> crate::Result<()> {
+        crate::vk::ch_put(crate::vk::CH_DIRECT | count, value & ((1u32 << count) - 1));
+        Ok(())
+    }
